@@ -235,7 +235,10 @@ def run(tier, mode):
         # qq_depth off (the other bound then comes from the attribute); with no depth keyword the configured qq_depth applies
         for ctx, kws, want in [('qq_depth.1', {'qq_depth_max': 3}, (2, 3)), ('qq_depth.1', {'qq_depth_min': 3}, (3, None)), ('qq_depth.1', {'qq_depth': 3}, (3, 3)),
                                ('qq_depth.1', {}, (1, 1)), ('qq_depth_min.1,qq_depth_max.3', {'qq_depth': 2}, (2, 2)), ('qq_depth.1,qq_depth_min.3', {'qq_depth_max': 4}, (3, 4)),
-                               ('qq_depth.1', {'qq_depth_min': 1, 'qq_depth_max': 3}, (1, 3)), ('qq_depth.3', {'qq_depth_max': 1}, (2, 1))]:
+                               ('qq_depth.1', {'qq_depth_min': 1, 'qq_depth_max': 3}, (1, 3)), ('qq_depth.3', {'qq_depth_max': 1}, (2, 1)),
+                               # a keyword whose value EQUALS what the object already holds (the default 2, or the configured bound) is still a keyword given
+                               ('qq_depth.1', {'qq_depth_min': 2}, (2, None)), ('qq_depth.1,qq_depth_min.3', {'qq_depth_min': 3}, (3, None)),
+                               ('qq_depth.1,qq_depth_max.4', {'qq_depth_max': 4}, (2, 4))]:
             o = tr_observe(rec, ctx, None, [], kws)
             n_or += 1
             bump('depth_interplay')
